@@ -41,4 +41,20 @@ def xzValidate (o : LzOptions) (filters : List (Nat × Nat)) (presetLen : Nat :=
     no preset dictionary) instead of rejecting: the preset-dictionary length that reaches the member encoder -/
 def lzipPresetUsed (_presetLen : Nat) : Nat := 0
 
+/-- outcome of a constructor: accepted, `InvalidInput`, `Unsupported` -/
+inductive NewRes where
+  | ok | invalid | unsupported
+deriving Repr, DecidableEq
+
+/-- `LZMAWriter::new(out, options, use_header, use_end_marker, expected_uncompressed_size)` (src/enc/lzma_writer.rs), in
+    the order of the source: `validate(false)`; a header that would announce an unknown size needs the end marker (the
+    pinned constructor accepted `use_header ∧ ¬use_end_marker ∧ expected = None` and wrote a `.lzma` file no reader can
+    terminate); a preset dictionary cannot be combined with the header (`Unsupported`).  `expected = some n` only fixes
+    what `write` / `finish` accept later (C18), not construction. -/
+def lzmaWriterNew (o : LzOptions) (useHeader useEndMarker : Bool) (expectedKnown : Bool) (hasPreset : Bool) : NewRes :=
+  if validate o false = false then .invalid
+  else if useHeader && !useEndMarker && !expectedKnown then .invalid
+  else if hasPreset && useHeader then .unsupported
+  else .ok
+
 end LzmaVerif.Options
